@@ -18,12 +18,12 @@ import (
 )
 
 type Op struct {
-	Kind  string   `json:"k"`           // u8 u64 bool time bytes string fixed:N raw ref dyn slice opt cond loop switch fn const dist opaque
-	Path  string   `json:"p,omitempty"` // Go access path (receiver-rooted ".F.G", "[*]" for elements, "$v" locals, "<expr>")
-	Typ   string   `json:"t,omitempty"` // ref: type name; fn: callee; slice: prefix width; cond: predicate; const: value
-	Sub   []Op     `json:"s,omitempty"`
-	Cases []OpCase `json:"c,omitempty"`
-	Args  []string `json:"-"` // fn: the paths of all non-coder arguments, in order (mirror comparison only)
+	Kind  string    `json:"k"`           // u8 u64 bool time bytes string fixed:N raw ref dyn slice opt cond loop switch fn const dist opaque
+	Path  string    `json:"p,omitempty"` // Go access path (receiver-rooted ".F.G", "[*]" for elements, "$v" locals, "<expr>")
+	Typ   string    `json:"t,omitempty"` // ref: type name; fn: callee; slice: prefix width; cond: predicate; const: value
+	Sub   []Op      `json:"s,omitempty"`
+	Cases []OpCase  `json:"c,omitempty"`
+	Args  []string  `json:"-"` // fn: the paths of all non-coder arguments, in order (mirror comparison only)
 	Pos   token.Pos `json:"-"`
 }
 
@@ -48,18 +48,18 @@ type WireProg struct {
 
 type wireWalker struct {
 	callAlias map[types.Object]string // locals defined once from an argument-less getter call
-	tagLocals map[types.Object]Op // locals assigned one constant per case of a type switch (see tagSwitch)
-	p        *Program
-	pkg      *packages.Package
-	info     *types.Info
-	recv     types.Object
-	paths    map[types.Object]string
-	closures map[types.Object]*ast.FuncLit
-	active   map[types.Object]bool
-	params   map[types.Object]string
-	prog     *WireProg
-	side     string
-	renames  map[string]string // local filled from the coder, later stored whole into a path
+	tagLocals map[types.Object]Op     // locals assigned one constant per case of a type switch (see tagSwitch)
+	p         *Program
+	pkg       *packages.Package
+	info      *types.Info
+	recv      types.Object
+	paths     map[types.Object]string
+	closures  map[types.Object]*ast.FuncLit
+	active    map[types.Object]bool
+	params    map[types.Object]string
+	prog      *WireProg
+	side      string
+	renames   map[string]string // local filled from the coder, later stored whole into a path
 	// value-aware zeroing: a local that is a *copy* of a path (x := *p) collects the fields zeroed on it;
 	// they count as zeroed in the preimage only if the copy is stored into the slot that is then encoded
 	copyLocal map[types.Object]bool
@@ -136,7 +136,6 @@ func (w *wireWalker) noteEncoded(e ast.Expr) {
 		}
 	}
 }
-
 
 func renameOps(ops []Op, ren map[string]string) {
 	if len(ren) == 0 {
@@ -1951,7 +1950,6 @@ func (w *wireWalker) pkgVarConst(e ast.Expr) constant.Value {
 	}
 	return m[field]
 }
-
 
 // zeroCopyCall: c calls a module function or method that takes one struct VALUE (its receiver or only
 // parameter), zeroes some of its fields (through a zeroer such as nilSigs(&v.A, &v.B) or "v.A = T{}") and
